@@ -178,7 +178,8 @@ claim("C14", "proof",
       "every store. Concrete battery on the engine built from the working tree (ASan+UBSan): layout scenario x 4 modes x engines "
       "x space types.",
       "Termination of the correction loop is not proved: it has no variant (known finding shared with C10/C11, sub-molecule "
-      "totals hang). Lemma L-sum (point update of a column sum) is assumed, the column-sum unfolding is definitional. A2: "
+      "totals hang). Lemma L-sum (point update of a column sum) is proved in Lean 4 + Mathlib (lemmas/Sums.lean, re-checked on every run), the "
+      "column-sum unfolding is definitional. A2: "
       "poisson_distribution<int> returns a non-negative int. Draw independence/distribution is a library assumption. The Python "
       "side (mode validation, mode and seed marshalling) is C20/C04. Fixed by this round: Poisson/floor modes did not transpose.",
       "deductive: symbolic interpretation of clang AST with loop invariants, entry invariants and ghost column sums + SMT; sanitizer replay battery",
@@ -224,8 +225,8 @@ claim("C02", "proof",
       "x 8 boundary combinations; 6 multigraphs with self loops, parallel edges, zero-diffusivity environment, heterogeneous "
       "volumes) and 2000-step conservation runs of A <-> B with diffusion for the three engines. The Python seam's marshalling "
       "cases (C04) are included.",
-      "The lemmas L-sum, L-lin, L-pairing, L-mates (algebra of finite sums, induction over the edge list) are stated in DESIGN.md, "
-      "not machine-checked. Equality of the swapped in/out constants of two mate slots follows from the Build_mesh_kd contract "
+      "The lemmas L-sum, L-lin, L-pairing (algebra of finite sums) are proved in Lean 4 + Mathlib (lemmas/Sums.lean, re-checked on "
+      "every run); L-mates (induction over the edge list) is stated in DESIGN.md, not machine-checked. Equality of the swapped in/out constants of two mate slots follows from the Build_mesh_kd contract "
       "(C01, thorough tier) and the symmetry of the interface diffusivity; it is checked concretely (bit-identical) in the battery. 'Every recorded sample' follows with C09 (a record is a copy of the "
       "state). Deterministic engine: to rounding (A1 treats doubles as reals).",
       "deductive: symbolic interpretation of clang AST with loop invariants, ghost sums and callee contracts + SMT; bounded stand-in for interface pairing; sanitizer replay battery",
